@@ -66,6 +66,7 @@ type FuncContract struct {
 	File       string
 	Line       int
 	Used       bool
+	Locals     map[string][]localDesc // name-independent descriptions of the locals the clauses name (locals.go)
 }
 
 type TypeContract struct {
@@ -234,7 +235,7 @@ func (cs *ContractSet) ParseFile(path, pkgPath string) error {
 			if len(toks) == 0 {
 				return fmt.Errorf("%s:%d: missing function key", path, line)
 			}
-			fc := &FuncContract{Key: toks[0], PkgPath: pkgPath, Extern: word == "extern", Loops: map[int]*LoopContract{}, Flags: map[string]bool{}, File: path, Line: line}
+			fc := &FuncContract{Key: canonFuncKey(toks[0]), PkgPath: pkgPath, Extern: word == "extern", Loops: map[int]*LoopContract{}, Flags: map[string]bool{}, File: path, Line: line}
 			if fc.Extern {
 				fc.PkgPath = ""
 			}
@@ -369,6 +370,19 @@ func (cs *ContractSet) ParseFile(path, pkgPath string) error {
 			curLoop = &LoopContract{N: n}
 			curFn.Loops[n] = curLoop
 			curHook = nil
+		case "local":
+			if curFn == nil {
+				return fmt.Errorf("%s:%d: local outside func", path, line)
+			}
+			nm, desc, _ := strings.Cut(strings.TrimSpace(rest), " ")
+			d, err := parseLocalDesc(desc)
+			if err != nil {
+				return fmt.Errorf("%s:%d: %v", path, line, err)
+			}
+			if curFn.Locals == nil {
+				curFn.Locals = map[string][]localDesc{}
+			}
+			curFn.Locals[nm] = append(curFn.Locals[nm], d)
 		case "at":
 			// anchor of the current loop (if a loop clause is open) or of the current closure
 			if curLoop != nil {
@@ -382,7 +396,7 @@ func (cs *ContractSet) ParseFile(path, pkgPath string) error {
 			if curFn == nil {
 				return fmt.Errorf("%s:%d: hook outside func", path, line)
 			}
-			curHook = &CallHook{Kind: word, Pattern: strings.TrimSuffix(strings.TrimSpace(rest), ":")}
+			curHook = &CallHook{Kind: word, Pattern: canonFuncKey(strings.TrimSuffix(strings.TrimSpace(rest), ":"))}
 			curFn.Hooks = append(curFn.Hooks, curHook)
 			curLoop = nil
 		case "assert", "assume":
